@@ -30,8 +30,8 @@ Theorem C19_evaluation_keeps_syntax : forall fuel stm env c,
 Proof. exact evaluation_keeps_syntax. Qed.
 
 (** a new instance has a root frame that did not exist before, and starts clean *)
-Theorem C19_new_instance_fresh_root : forall base write st syn st' syn' inst,
-  new_instance base write st syn = (Ok inst, st', syn') ->
+Theorem C19_new_instance_fresh_root : forall base write bn wn st syn st' syn' inst,
+  new_instance base write bn wn st syn = (Ok inst, st', syn') ->
   i_env inst = length (frames st) /\ nth_error (frames st) (i_env inst) = None /\
   i_in_progress inst = [] /\ i_import_end inst = false /\ i_progdir inst = None.
 Proof. exact new_instance_fresh_root. Qed.
